@@ -78,12 +78,16 @@ def _g_after_append(E):
     E.dset(_pos(E, o), key, Sym(n - 1, "int"))
 
 
+def _ks(E, o):
+    return E.ksort(_d(E, o).kt)
+
+
 def _g_after_remove(E):
     o = E.frame.env["self"]
     key = E.frame.env["key"]
     pos = _pos(E, o)
     p = zint(E.ghost["last_remove_pos"])
-    kv = z3.Const("k!gp", KS)
+    kv = z3.Const("k!gp", _ks(E, o))
     old = E.dvals(pos)[0]
     new = z3.Lambda([kv], z3.If(z3.Select(old, kv) > p, z3.Select(old, kv) - 1, z3.Select(old, kv)))
     E.set_dvals(pos, [new])
@@ -98,7 +102,7 @@ def _g_after_insert(E):
     n = n1 - 1
     at = z3.If(idx < 0, z3.If(n + idx < 0, z3.IntVal(0), n + idx), z3.If(idx > n, n, idx))
     pos = _pos(E, o)
-    kv = z3.Const("k!gp", KS)
+    kv = z3.Const("k!gp", _ks(E, o))
     old = E.dvals(pos)[0]
     kt = E.dkey(pos, key)
     new = z3.Lambda([kv], z3.If(kv == kt, at, z3.If(z3.Select(old, kv) >= at, z3.Select(old, kv) + 1,
@@ -116,7 +120,7 @@ def inv(E, o):
     dom = E.ddom(d)
     pos = E.dvals(_pos(E, o))[0]
     i = z3.Int("i!inv%d" % next(E.counter))
-    k = z3.Const("k!inv%d" % next(E.counter), KS)
+    k = z3.Const("k!inv%d" % next(E.counter), _ks(E, o))
     A = z3.ForAll([i], z3.Implies(z3.And(i >= 0, i < n),
                                   z3.And(z3.Select(dom, z3.Select(a, i)), z3.Select(pos, z3.Select(a, i)) == i)))
     Bq = z3.ForAll([k], z3.Implies(z3.Select(dom, k),
@@ -135,7 +139,7 @@ def same_vals_except(E, o, key):
     dom0, val0 = E.ddom(d0), E.dvals(d0)[0]
     E.heap = heap
     dom1, val1 = E.ddom(d), E.dvals(d)[0]
-    k = z3.Const("k!sv%d" % next(E.counter), KS)
+    k = z3.Const("k!sv%d" % next(E.counter), _ks(E, o))
     kt = E.dkey(d, key) if key is not None else None
     cond = (k != kt) if kt is not None else z3.BoolVal(True)
     return Sym(z3.ForAll([k], z3.Implies(cond, z3.And(z3.Select(dom1, k) == z3.Select(dom0, k),
@@ -228,20 +232,30 @@ contract(F, "odict.insert", "C39,C37", params=dict(P, index=INT, key=K, val=V_),
                   # Python's list.insert index clamping
                   "inserted_at(self._keys, old_keys(self), clampidx(index, len(old_keys(self))), key)"],
          raises={"KeyError": ["old(key in self)", UNCHANGED]})
+@specfunc
+def is_empty(E, o):
+    dom = E.ddom(_d(E, o))
+    k = z3.Const("k!em%d" % next(E.counter), _ks(E, o))
+    return Sym(z3.ForAll([k], z3.Not(z3.Select(dom, k))), "bool")
+
+
 contract(F, "odict.clear", "C39", params=dict(P), modifies=["self._keys", "self._d{*}"],
-         ensures=["len(self._keys) == 0", "forall(Opaque('key'), lambda k: k not in self)", "inv(self)"])
+         ensures=["len(self._keys) == 0", "is_empty(self)", "inv(self)"])
 contract(F, "odict.keys", "C39,C37", params=dict(P), requires=["inv(self)"], modifies=[],
-         ensures=["seq_eq(result, self._keys)", "fresh(result)"], returns=List(K))
+         ensures=["seq_eq(result, self._keys)", "fresh(result)"],
+         returns=lambda E, env: List(_d(E, env["self"]).kt))
 contract(F, "odict.popitem", "C39", params=dict(P), requires=["inv(self)"], modifies=MODS,
          ensures=["inv(self)", "len(old_keys(self)) > 0",
                   "result[0] == old_keys(self)[len(old_keys(self)) - 1]", "result[0] not in self",
                   "same_vals_except(self, result[0])",
                   "is_slice(self._keys, old_keys(self), 0, len(old_keys(self)) - 1)"],
-         raises={"KeyError": ["len(old_keys(self)) == 0", UNCHANGED]}, returns=Tup(K, V_))
+         raises={"KeyError": ["len(old_keys(self)) == 0", UNCHANGED]},
+         returns=lambda E, env: Tup(_d(E, env["self"]).kt, _d(E, env["self"]).vt))
 
 contract(F, "odict.pop", "C39", params=dict(P, key=K), requires=["inv(self)"], modifies=MODS,
          ghost={"after": {"self._keys.remove(key)": _g_after_remove}},
          ensures=["inv(self)", "key not in self", "old(key in self)", "same_vals_except(self, key)",
                   "result == old(self[key])", "removed_at(self._keys, old_keys(self), old_pos(self, key))"],
-         raises={"KeyError": ["old(key not in self)", UNCHANGED]}, returns=V_,
+         raises={"KeyError": ["old(key not in self)", UNCHANGED]},
+         returns=lambda E, env: _d(E, env["self"]).vt,
          note="called without a default")
